@@ -671,6 +671,20 @@ pub(crate) async fn fashare(
             if dm_k[k][r][0] > 1 {
                 return Err(Error::InvalidBitValue);
             }
+            // The claimed bit must carry a valid MAC under our own key. Otherwise a party lying
+            // about its bit would make us open d0 instead of d1 (or vice versa), which differ by
+            // our global key.
+            let start = if i > k { 1 + (i - 1) * 16 } else { 1 + i * 16 };
+            let Ok(mac) = dm_k[k][r][start..start + 16]
+                .try_into()
+                .map(u128::from_be_bytes)
+            else {
+                return Err(Error::ConversionErr);
+            };
+            let (_, key) = xishares[l + r].1.0[k];
+            if mac != key.0 ^ (dm_k[k][r][0] as u128 * delta.0) {
+                return Err(Error::AShareWrongMAC);
+            }
             bi[r] ^= dm_k[k][r][0] != 0;
         }
         di_bi[r] = if bi[r] { d1[r] } else { d0[r] };
